@@ -95,6 +95,46 @@ class NestRef(Ref):
         return d
 
 
+class NestRef2(Ref):
+    """Two threads, each with its own open-region stacks (depth <= 1 each): what one thread opens or closes must not
+    matter to the other.  Thread 1 only uses a few regions to keep the product small."""
+
+    def __init__(self, base, few, limit0=None):
+        self.base = base
+        self.spec = SPEC2
+        base.depth = 1
+        base.restrict = None
+        ents0 = sorted(base.enter)
+        if limit0:
+            ents0 = ents0[:limit0]
+        self.use = [set(ents0) | set(base.enter[e]["leave"] for e in ents0), set(few) | set(base.enter[e]["leave"] for e in few)]
+        self._alpha = None
+
+    def init(self):
+        return (self.base.init(), self.base.init())
+
+    def alphabet(self, s):
+        if self._alpha is None:
+            self._alpha = [((k, e.mcv), Ev(k, e.mcv)) for k in (0, 1) for e in self.base.events if e.mcv in self.use[k]]
+        return self._alpha
+
+    def step(self, s, label):
+        k, mcv = label
+        e, s2, why = self.base.step(s[k], mcv)
+        if e == "ok*":
+            e = "ok"
+        if s2 is None:
+            return (e, None, why)
+        return (e, (s2, s[1]) if k == 0 else (s[0], s2), "thread %d: %s" % (k, why))
+
+    def display(self, s):
+        d = {}
+        for k in (0, 1):
+            for (n, row, ty), v in self.base.display(s[k]).items():
+                d[(n, k + 1, ty)] = v
+        return d
+
+
 class PrefixRefused(Exception):
     """The emulator refused the (legal) common prefix of a walk: that is its behaviour on a legal history, so the
     checks report it as a violation of their property, not as an infrastructure error."""
@@ -301,6 +341,14 @@ def run(prop, tier):
                                           {"engine": "E3", "flags": pool2.flags, "spec": SPEC2, "mcv": mcv, "who": who, "first_end": first},
                                           {"kind": "lint2-balanced", "mcv": mcv})
                     ctx.part("lint2-" + model, traces=len(tasks))
+                    # ---- nesting is per thread: product walk over two threads
+                    ents = sorted(ref.enter)
+                    ref2 = NestRef2(NestRef(model, cat, gold, 1, None), ents[:3], limit0=(8 if tier == "quick" else None))
+                    try:
+                        pp2 = PrefixPool(pool2, X2)
+                        Explorer(ctx, pp2, ref2, name="nest2-" + model, report_props={"C08"}, check_time=False).run()
+                    except PrefixRefused as e:
+                        report_prefix(ctx, e, "nest2-" + model, pool2.flags, SPEC2)
                 finally:
                     pool2.close()
 
@@ -348,7 +396,7 @@ def run(prop, tier):
         ctx.cov["rule"] = ("per model: every state = open-region stacks (depth <= 2) of a running thread; in every state every documented "
                            "argument-less event of the model is probed (matching leave accepted, any other leave refused, enter accepted; "
                            "immediate re-entry either way) and the thread and CPU rows must show the golden value of the innermost region; "
-                           "plus state preconditions, lint on open regions (one thread; two threads with the open region on either and either ending last), "
+                           "a product walk over two threads (depth <= 1 each) for per-thread independence; plus state preconditions, lint on open regions (one thread; two threads with the open region on either and either ending last), "
                            "one depth-512 path and .pcf labels")
         ctx.cov["distinct_nontrivial"] = ctx.cov["states"]
         ctx.assumptions += ["golden/enter_values.json (event -> type,value,label) frozen after manual review against the documented descriptions",
